@@ -45,6 +45,16 @@ def bulk_step(tier, shard, nshards, rec, rng):
     return None
 
 
+def check_replay_step(case, rec):
+    """replay form of a failing element of the bulk enumerations"""
+    rec.nt()
+    data, start = case["data"], case.get("start")
+    got = crc8404B(data) if start is None else crc8404B(data, start)
+    want = refcrc.crc_bit(data, 0xFFFF if start is None else start)
+    if got != want or not (0 <= got <= 0xFFFF):
+        raise Violation("crc8404B(%s, start=%r) = %r, bit-serial CRC = %04x" % (data.hex(), start, got, want))
+
+
 def bulk_short(tier, shard, nshards, rec, rng):
     n = 0
     if shard == 0:
@@ -116,8 +126,8 @@ def check_vector(case, rec):
 
 def parts(tier):
     return [
-        Part("step", bulk=bulk_step, quick=(16, 0), thorough=(16, 0), exhaustive=True),
-        Part("short", bulk=bulk_short, quick=(4, 0), thorough=(4, 0), exhaustive=True),
+        Part("step", bulk=bulk_step, check=check_replay_step, quick=(16, 0), thorough=(16, 0), exhaustive=True),
+        Part("short", bulk=bulk_short, check=check_replay_step, quick=(4, 0), thorough=(4, 0), exhaustive=True),
         Part("vectors", check=check_vector, enum=enum_vectors, quick=(1, 0), thorough=(1, 0), exhaustive=True),
         Part("long", check=check_long, strategy=strat_long, quick=(4, 400), thorough=(16, 6000)),
     ]
